@@ -3,7 +3,7 @@
 From Coq Require Import List ZArith Extraction ExtrOcamlBasic.
 From LMBase Require Import Res ListX.
 From LMDense Require Import DenseModel.
-From LMPyIdx Require Import PyIdxModel PyIdxSpec.
+From LMPyIdx Require Import PyIdxModel PyIdxSpec PyIdxAlloc.
 
 (* elements are Z: symbol indices, counts, IEEE bit patterns *)
 Definition z_model_obs (dflt poison : Z) := @model_obs Z dflt poison.
@@ -16,4 +16,4 @@ Definition z_model_request_null (dflt : Z) := @model_request_null Z dflt.
 
 Extraction Language OCaml.
 Extraction "pyidx_model.ml" z_model_obs z_check_C18 z_check_index z_check_view z_scores_lobj z_model_request z_model_request_null seq_rows dense_stride
-  ssize_min ssize_max fmt_code view_dangling.
+  ssize_min ssize_max fmt_code view_dangling check_alloc model_moves alloc_steps.
